@@ -183,6 +183,8 @@ EXC_PARENT = {
     "UnicodeDecodeError": "UnicodeError",
     "UnicodeError": "ValueError",
     "ValueError": "Exception",
+    # werkzeug.routing.converters.ValidationError(ValueError)
+    "ValidationError": "ValueError",
     "TypeError": "Exception",
     "IndexError": "LookupError",
     "KeyError": "LookupError",
@@ -221,6 +223,7 @@ METHODS = {
     ("Str", "upper"): Fn("Pre.upper", [STR], STR),
     ("Str", "replace"): Fn("Pre.replace", [STR, STR, STR], STR),
     ("Str", "isascii"): Fn("Pre.isascii", [STR], BOOL),
+    ("Str", "zfill"): Fn("Pre.zfill", [STR, INT], STR),
     ("CharSet", "issuperset"): Fn("Pre.issuperset", [CHARSET, STR], BOOL),
     ("Str", "split/0"): Fn("Pre.splitWs", [STR], Lst(STR)),
     ("Str", "split/1"): Fn("Pre.splitOn", [STR, STR], Lst(STR), nonempty_lit=(1,)),
@@ -478,7 +481,7 @@ class Translator:
         for p, ty in spec.params:
             t = parse_ty(ty)
             key = p[1:] if p.startswith("*") else p
-            ln = lean_name(key.replace("self.", ""))
+            ln = lean_name(key.replace("self.", "self_"))
             env[key] = Var(ln, t)
             binders.append(f"({ln} : {lean_ty(t)})")
         self.opaque_args = "".join(" " + nm for nm, _ in spec.opaque)
@@ -1045,8 +1048,10 @@ class Translator:
             if len(n.args) != 1:
                 self.bad(n, "str arity")
             x = self.plain(self.expr(n.args[0], env), n.args[0])
+            if x.ty == INT:
+                return E(f"Pre.strOfInt {P(x)}", STR)
             if x.ty != STR:
-                self.bad(n, "str() of a non-str (formatting is outside the subset)")
+                self.bad(n, "str() of something that is neither str nor int (formatting is outside the subset)")
             return x
         self.bad(n, f"builtin {name} is outside the subset")
 
